@@ -206,6 +206,22 @@ fn run_case(seed: u64, lean: &mut Lean, hist: &mut BTreeMap<String, u64>, sample
                         lean.ask(&format!("db.write {}", spec.join(";")));
                         trace.push(format!("batch {}", spec.len()));
                     }
+                    9 if r.chance(1, 2) => {
+                        // bulk ingestion over existing and new keys (sorted, with tombstones)
+                        let mut items: BTreeMap<Vec<u8>, Option<Vec<u8>>> = BTreeMap::new();
+                        // values only: an ingested tombstone is the region of known finding F13 (probed by the stored witness)
+                        for _ in 0..r.range(1, 4) { items.insert(gen_key(&mut r), Some(gen_val(&mut r))); }
+                        // a sealed memtable count of 3 would make ingestion's internal flush pile up; fine with 0 workers
+                        let mut ing = match live[n].handle.start_ingestion() { Ok(i) => i, Err(e) => fail!("impl-vs-oracle", "start_ingestion failed: {e:?}") };
+                        for (k, v) in &items { let r2 = match v { Some(v) => ing.write(k.clone(), v.clone()), None => ing.write_tombstone(k.clone()) }; if let Err(e) = r2 { fail!("impl-vs-oracle", "ingestion write failed: {e:?}"); } }
+                        if let Err(e) = ing.finish() { fail!("impl-vs-oracle", "ingestion finish failed: {e:?}"); }
+                        for (k, v) in &items { match v { Some(v) => { refm.get_mut(n).unwrap().insert(k.clone(), v.clone()); } None => { refm.get_mut(n).unwrap().remove(k); } } }
+                        let spec: Vec<String> = items.iter().map(|(k, v)| format!("{}:{}", hex(k), v.as_ref().map(|v| hex(v)).unwrap_or("~".into()))).collect();
+                        lean.ask(&format!("db.ingest {id} {}", spec.join(";")));
+                        // ingestion flushed this keyspace's memtables: the flush path also runs journal maintenance? no - only the gc
+                        trace.push(format!("ingest {n} {:?}", items.iter().map(|(k, v)| (hex(k), v.as_ref().map(|x| x.len()))).collect::<Vec<_>>()));
+                        *hist.entry("ingest".into()).or_insert(0) += 1;
+                    }
                     _ => {
                         if let Err(e) = live[n].handle.clear() { fail!("impl-vs-oracle", "clear failed: {e:?}"); }
                         refm.get_mut(n).unwrap().clear();
@@ -255,7 +271,8 @@ fn run_case(seed: u64, lean: &mut Lean, hist: &mut BTreeMap<String, u64>, sample
                     // in the tables is an observed environment input of the model (it can only go down)
                     use fjall::AbstractTree;
                     let p = live[n].handle.tree.get_highest_persisted_seqno();
-                    lean.ask(&format!("db.lowerpersisted {} {}", live[n].id, p.map(|x| x.to_string()).unwrap_or("none".into())));
+                    let rep = lean.ask(&format!("db.lowerpersisted {} {}", live[n].id, p.map(|x| x.to_string()).unwrap_or("none".into())));
+                    if rep != "ok" { fail!("model-vs-impl", "observed highest persisted seqno {p:?} after major_compact breaks the model's physical assumption (a live value above it): {rep}"); }
                 }
                 trace.push(format!("major_compact {n}"));
                 *hist.entry("major-compact".into()).or_insert(0) += 1;
@@ -364,6 +381,30 @@ fn run_case(seed: u64, lean: &mut Lean, hist: &mut BTreeMap<String, u64>, sample
     (fails, nontrivial, h)
 }
 
+/// stored witness of known finding F13 (ingested tombstone)
+fn witness_f13_ingest() -> Option<Failure> {
+    let scratch = Scratch::new("f13i");
+    let dir = scratch.join("db");
+    {
+        let db = Database::builder(&dir).worker_threads_unchecked(0).open().ok()?;
+        let ks = db.keyspace("a", KeyspaceCreateOptions::default).ok()?;
+        ks.insert("x", "v").ok()?;
+        ks.rotate_memtable().ok()?;
+        while fjall::verif::queued_worker_messages(&db) > 0 { let _ = fjall::verif::verif_worker_step(&db); }
+        let mut ing = ks.start_ingestion().ok()?;
+        ing.write_tombstone("x").ok()?;
+        ing.finish().ok()?;
+        ks.major_compact().ok()?;
+        if ks.get("x").ok()?.is_some() { return None; }
+    }
+    let db = Database::builder(&dir).worker_threads_unchecked(0).open().ok()?;
+    let ks = db.keyspace("a", KeyspaceCreateOptions::default).ok()?;
+    if ks.get("x").ok()?.is_some() {
+        return Some(Failure { kind: "impl-vs-oracle", detail: "a key deleted by an ingested tombstone is back after a reopen: insert a.x; flush; ingest tombstone x; major_compact (tombstone evicted); reopen -> get(x) = original".into(), witness: Some("F13-ingest".into()) });
+    }
+    None
+}
+
 fn main() {
     let args: Vec<String> = std::env::args().collect();
     let mut replay = None;
@@ -387,6 +428,7 @@ fn main() {
     let mut samples = vec![];
     let mut hist = BTreeMap::new();
     let mut cases = 0;
+    if replay.is_none() && mode == "c04" { if let Some(f) = witness_f13_ingest() { all.push((0, f)); } }
     for cs in seeds {
         let res = std::panic::catch_unwind(std::panic::AssertUnwindSafe(|| run_case(cs, &mut lean, &mut hist, &mut samples, thorough, &mode)));
         cases += 1;
